@@ -11,16 +11,15 @@
 (* and the clauses of the property over such views: SameLinks, SameInfo, SameObject,        *)
 (* SameSearch.  Search extraction per protocol is Links!Parse(..).search applied to         *)
 (* Links!Follow(p, t, base, s); Gemini's prompt -> query -> redirect dialogue is            *)
-(* SearchReaches.  Deviations of the pinned code are modelled and named:                    *)
-(*   (DefaultPort70 - http.py/gemini.py/spartan.py rendered a host-but-no-port entry with   *)
-(*    port 70 where rfc1436.py uses the advertised port - was found by this model and is    *)
-(*    repaired in the code by fix e38974e; Links!Target follows the repaired code)          *)
-(*   FormDecodeReplace  http.py takes the search string from urllib.parse.parse_qs, which   *)
-(*                    decodes with errors="replace": a non-UTF-8 byte reaches the handler   *)
-(*                    as U+FFFD through HTTP/WAP, as the byte through every other protocol  *)
+(* SearchReaches.  One deviation of the pinned code remains modelled and named:             *)
 (*   PlusFlagAmbiguity  a plain Gopher search string starting with "+" or "$" (or "!") is    *)
 (*                    taken for the Gopher+ flag field: the request becomes a Gopher+        *)
-(*                    request without search string                                         *)
+(*                    request without search string (inherent in the Gopher+ grammar)        *)
+(* Found by this model and since repaired in the code (the model follows the repaired code, *)
+(* the clauses now reject the old behaviour): DefaultPort70 (geturl(server_name, 70) vs the  *)
+(* advertised port, fix e38974e), EmptySelectorHref (HTTP/WAP rendered an empty selector as *)
+(* HREF="", fix 0472d31), FormDecodeReplace (parse_qs errors="replace" turned a non-UTF-8   *)
+(* byte of an HTTP search string into U+FFFD, fix d7962e4).                                 *)
 EXTENDS Links
 
 UrlHost == "(url)"              \* pseudo host of targets that are plain URLs
@@ -74,9 +73,6 @@ SameInfo(v1, v2, ae) == ae # "unsupported" => v1 = v2
 
 \* ---- the model side: the same entry rendered for p and for plain Gopher ----------------------
 CanonOfEntry(p, e) == Canon(p, Target(p, e))
-\* http.py (and wap.py) render a local entry with an EMPTY selector as the empty reference (= the current page);
-\* gemini.py/spartan.py substitute "/" and Gopher clients send the empty selector, both meaning the root menu
-EmptySelectorHref(p, e) == p \in {"H", "HS", "W"} /\ e.type # "i" /\ e.sel = "" /\ e.host = "" /\ e.port = 0
 EntryAgrees(p, e) == CanonOfEntry(p, e) = CanonOfEntry("G", e)
 
 \* ---- MIME / object views -----------------------------------------------------------------------
@@ -95,7 +91,6 @@ SearchReaches(p, t, base, s) ==
     IF p = "M" /\ r1.kind = "redirect"
     THEN Parse(Rq("gemini://" \o ServerName \o RefPath(RefPath(base, t.href), r1.redirect) \o cCRLF, "", TRUE)).search
     ELSE IF r1.kind = "serve" THEN r1.search ELSE "(not delivered)"
-FormDecodeReplace(p, s) == p \in {"H", "HS", "W"} /\ Find(s, HI) > 0
 \* a plain Gopher search string that looks like a Gopher+ flag field ("+...", "$...", "!") makes the request a
 \* Gopher+ request without search string (gopherp.py canhandlerequest, listed before rfc1436): inherent in Gopher+
 PlusFlagAmbiguity(p, s) == p \in {"G", "SG"} /\ (Ch(s, 1) \in {"+", "$"} \/ s = "!")
